@@ -144,6 +144,7 @@ __CPROVER_requires(buf == NULL || (__CPROVER_r_ok(buf, buf_size) &&
     __CPROVER_POINTER_OFFSET(buf) == 0 && __CPROVER_OBJECT_SIZE(buf) == buf_size))
 __CPROVER_assigns(ini->lines, ini->lines_count, ini->lines_allocated)
 __CPROVER_assigns(ini->lines != NULL: __CPROVER_object_whole(ini->lines))
+__CPROVER_assigns(__CPROVER_object_whole(vf_ini_req))	/* ghost table of the allocator stubs */
 __CPROVER_frees(ini->lines)
 __CPROVER_ensures(vf_ini_post_parse(ini, __CPROVER_old(ini->lines_count), buf, buf_size,
     __CPROVER_return_value))
